@@ -59,7 +59,7 @@ Definition request_fields : list string := [
   "Request.Header.method"; "Request.Header.requestURI"; "Request.Header.host"; "Request.Header.userAgent"; "Request.Header.rawHeaders";
   "Request.Header.disableSpecialHeader"; "Request.Header.cookiesCollected";
   "Request.timeout"; "Request.secureErrorLogMessage"; "Request.parsedURI"; "Request.parsedPostArgs"; "Request.uriParseErr";
-  "Request.keepBodyBuffer"; "Request.isTLS"; "Request.UseHostHeader"; "Request.DisableRedirectPathNormalizing" ].
+  "Request.keepBodyBuffer"; "Request.bodyStreamUnread"; "Request.isTLS"; "Request.UseHostHeader"; "Request.DisableRedirectPathNormalizing" ].
 
 Definition ctx_own_fields : list string := [
   "connTime"; "time"; "logger.ctx"; "logger.logger"; "remoteAddr"; "c"; "s"; "timeoutResponse"; "timeoutCh"; "timeoutTimer";
@@ -268,6 +268,7 @@ Record lreq := mkLreq {
   q_head_ok : bool;            (* the head parses *)
   q_rt : Z; q_wt : Z; q_max : Z;   (* RequestConfig returned by HeaderReceived for this request *)
   q_body : Z;                  (* Content-Length *)
+  q_stream : bool;             (* with StreamRequestBody the body is handed to the handler as a requestStream (Content-Length or chunked, not a pre-parsed multipart form) *)
   q_close : bool;              (* Connection: close *)
   q_expect : bool;
   q_expect_status : Z;
@@ -386,7 +387,9 @@ Definition lstep (c : scfg) (st0 : lstate) (q : lreq) : decision * lstate :=
   let '(s5, cs5) := arm_write (s4, cs2) in
   let close2 := l_close s5
                 || ((sc_maxReqPerConn c >? 0) && (l_num s5 >=? sc_maxReqPerConn c))
-                || (dispatched && match q_act q with HConnClose => true | _ => false end) in
+                || (dispatched && match q_act q with HConnClose => true | _ => false end)
+                (* the timed-out handler still owns the request stream: the connection is not reused *)
+                || (dispatched && sc_stream c && q_stream q && match q_act q with HTimeout => true | _ => false end) in
   let hij := dispatched && match q_act q with HHijack => true | _ => false end in
   let s6 := with_close s5 close2 (l_continue s5) in
   (mkDec dispatched status (close2 || hij) (l_max s5) (l_wdl s5) rdl_head rdl_body cs5 (hij && negb close2), s6).
